@@ -732,7 +732,7 @@ class Parser:
                     return model.void_type, quals
                 if ident == '__dotdotdot__':
                     raise FFIError(':%d: bad usage of "..."' %
-                            typenode.coord.line)
+                            getattr(typenode.coord, 'line', 0))
                 tp0, quals0 = resolve_common_type(self, ident)
                 return tp0, (quals | quals0)
             #
@@ -764,7 +764,7 @@ class Parser:
                                                     nested=True), 0
         #
         raise FFIError(":%d: bad or unsupported type declaration" %
-                typenode.coord.line)
+                getattr(typenode.coord, 'line', 0))
 
     def _parse_function_type(self, typenode, funcname=None):
         params = list(getattr(typenode.args, 'params', []))
